@@ -711,7 +711,7 @@ void File::uncompressedFile2ReadWriteQueue() {
     m_uncompressedFile.seekg(-ohb.calculateHeaderSize(), std::ios_base::cur);
 
     /* create object */
-    ObjectHeaderBase * obj = createObject(ohb.objectType);
+    ObjectHeaderBase * obj = (ohb.objectSize < ohb.calculateHeaderSize()) ? nullptr /* corrupt, skip the header */ : createObject(ohb.objectType);
     if (obj == nullptr) {
         /* in case of unknown objectType */
         /* skip at least the base header, otherwise the same header is read again forever */
